@@ -100,7 +100,7 @@ func (s *Server) goLive(
 	default:
 		return errors.New("invalid live type switches")
 	case liveAOFSwitches:
-		return s.liveAOF(lfs.pos, conn, rd, msg)
+		return s.liveAOF(lfs.pos, lfs.gen, conn, rd, msg)
 	case liveSubscriptionSwitches:
 		return s.liveSubscription(conn, rd, msg, websocket)
 	case liveMonitorSwitches:
